@@ -193,7 +193,9 @@ def compositeAct (c : Cfg) (parent : J) (observed desired : ObjMap) (status : Op
     else pure ([], memo)
   let st ← updateParentStatus c parent status
   match st with
-  | .error "NotFound" | .error "Conflict" => pure (memo, .ok ())
+  | .error "NotFound" | .error "Conflict" =>
+    -- the status error is swallowed, the children error is not
+    if manageErrs.isEmpty then pure (memo, .ok ()) else pure (memo, .error (.fail "can't reconcile children"))
   | .error e => pure (memo, .error (.fail s!"can't update status: {e}"))
   | .ok _ =>
     if manageErrs.isEmpty then pure (memo, .ok ()) else pure (memo, .error (.fail "can't reconcile children"))
